@@ -205,6 +205,9 @@ T("np.histogram2d", "range-q|(6,)", lambda x, y, a, b, c, d: np.histogram2d(x, y
 T("np.histogramdd", "range-q|(6,)x2", lambda x, y, a, b, c, d: np.histogramdd((x, y), bins=2, range=[[a, b], [c, d]]), {"x": I("X", (6,)), "y": I("Y", (6,)), "a": I("X", (), "neg"), "b": I("X", (), "pos"), "c": I("Y", (), "neg"), "d": I("Y", (), "pos")}, cls="other")
 T("np.logspace", "endpoint,dtype,axis|dimless", lambda a: np.logspace(a, a + 2.0, 3, endpoint=False, dtype=np.float32, axis=0), {"a": I(None, (2,), "pos")}, cls="bare", noncov="bare exponents")
 T("np.logspace", "base-q,endpoint,axis|(2,)", lambda b: np.logspace(np.array([0.0, 1.0]), np.array([2.0, 3.0]), 3, endpoint=False, base=b, axis=1), {"b": I("X", (), "pos")}, cls="other", noncov="powers of a dimensional base are not scale-covariant")
+T("np.histogramdd", "density,mixed-bare-coordinate|(6,)x2", lambda x, y: np.histogramdd((x, y), bins=2, density=True), {"x": I("X", (6,)), "y": I(None, (6,), "f")}, cls="other")
+T("np.histogramdd", "density,bare-first|(6,)x2", lambda x, y: np.histogramdd((y, x), bins=2, density=True), {"x": I("X", (6,)), "y": I(None, (6,), "f")}, cls="other")
+T("np.histogram2d", "density,mixed-bare-coordinate|(6,)", lambda x, y: np.histogram2d(x, y, bins=2, density=True), {"x": I("X", (6,)), "y": I(None, (6,), "f")}, cls="other")
 T("np.histogramdd", "bins2|(6,)x2", lambda x, y: np.histogramdd((x, y), bins=2), {"x": I("X", (6,)), "y": I("Y", (6,))}, cls="other")
 T("np.histogramdd", "density,weights|(6,)x2", lambda x, y, w: np.histogramdd((x, y), bins=2, density=True, weights=w), {"x": I("X", (6,)), "y": I("Y", (6,)), "w": I("W", (6,), "pos")}, cls="other")
 
